@@ -148,6 +148,9 @@ def case(rng: Any, ctx: Ctx, index: int) -> None:
     rr = ([('blocks', f) for f in range(4)] + [('nearmiss', f) for f in range(patterns.N_NEARMISS)]
           + [(n, None) for n in names if n not in ('blocks', 'nearmiss')])
     k = 1 + int(rng.integers(3) == 0) + int(rng.integers(6) == 0)
+    bare = bool(rng.integers(4) == 0)        # the pattern alone: chains whose operands ALL cancel (the rule must synthesise the identity)
+    if bare:
+        k = 1
     maxctx = 14 if ctx.thorough else 6
 
     def build() -> Any:
@@ -163,10 +166,10 @@ def case(rng: Any, ctx: Ctx, index: int) -> None:
                 tag, seg = patterns.PATTERNS[nm](rng)
             segs.append(seg)
             tags.append(tag)
-        n_left = int(rng.integers(0, maxctx // 2 + 1))
-        n_right = int(rng.integers(0, maxctx // 2 + 1))
-        n_mid = int(rng.integers(0, 3))
-        out = patterns.embed(rng, segs, n_left, n_mid, n_right, scalars=int(rng.integers(0, 5)))
+        n_left = int(rng.integers(0, maxctx // 2 + 1)) * (not bare)
+        n_right = int(rng.integers(0, maxctx // 2 + 1)) * (not bare)
+        n_mid = int(rng.integers(0, 3)) * (not bare)
+        out = patterns.embed(rng, segs, n_left, n_mid, n_right, scalars=int(rng.integers(0, 5)) * (not bare))
         return out, tags, (n_left, n_mid, n_right)
 
     out, tags, (nl, nm_, nr) = generate(build)
